@@ -104,6 +104,8 @@ class Gen(object):
                 if a is not None and a not in [x for x, _ in self.rules]:
                     self.rules.append((a, rng.choice(["domain", "subdomain", "path1", "path2", "path1"])))
         self.backend = backend or "sim"
+        # many webentities: the id counter crosses byte boundaries of its header field
+        self.many_ids = (prop == "C12" and rng.random() < (0.02 if tier == "quick" else 0.04)) or (prop == "C11" and rng.random() < (0.006 if tier == "quick" else 0.012))
         self.bulk = prop in ("C03", "C07", "C08", "C10", "C20") and rng.random() < (0.01 if tier == "quick" else 0.03)
         self.created_prefixes = []  # prefixes named in webentity ops so far (for refs)
 
@@ -202,6 +204,19 @@ class Gen(object):
             if r.random() < 0.3:
                 o["drive"] = "until_done"
             return o
+        if k == "create_we" and self.many_ids:
+            self.many_ids = False
+            return {"op": "create_many", "base": enc(b"s:http|h:com|h:many|"), "count": r.choice([254, 255, 256, 257, 300])}
+        if k == "create_we" and self.prop == "C09" and r.random() < 0.06:
+            # a webentity with many prefixes (tokens must carry prefix indexes of two digits)
+            base = r.choice(self.pool)
+            st = stems(base)
+            root = b"".join(st[: max(1, min(len(st), 3))])
+            ps = [root + b"p:d%02d|" % i_ for i_ in range(r.choice([11, 12, 14]))]
+            for p in ps:
+                self.created_prefixes.append(p)
+                self.pool.append(p + r.choice([b"p:x|", b"p:y|", b"p:z|"]))
+            return {"op": k, "prefixes": [enc(p) for p in ps]}
         if k == "create_we":
             n = r.choice([1, 1, 1, 2, 3])
             ps = []
